@@ -579,6 +579,17 @@ pub fn run_c05(case: &Case) -> Outcome {
                     l.push(MPred { var: x.var, k: PK::Ge, v: x.v - 1 });
                 }
             }
+            3 => {
+                // compatible pair over the same variable and the same constant (e.g. [x <= c], [x == c])
+                let x = l[0];
+                let k2 = match x.k {
+                    PK::Eq => [PK::Le, PK::Ge][r.gen_range(0..2)],
+                    PK::Le | PK::Ge => PK::Eq,
+                    PK::Ne => PK::Ne,
+                };
+                let at = r.gen_range(0..=l.len());
+                l.insert(at, MPred { var: x.var, k: k2, v: x.v });
+            }
             _ => {}
         }
         lists.push(l);
